@@ -17,7 +17,12 @@ import (
 	"time"
 )
 
-const VerifDir = "/verif"
+var VerifDir = func() string {
+	if d := os.Getenv("VERIF_DIR"); d != "" {
+		return d
+	}
+	return "/verif"
+}()
 
 // Spec describes one property check.
 type Spec struct {
